@@ -139,6 +139,7 @@ def judgeOt (o : Ot) (obs : String) : String :=
 /-! ### morphology -/
 
 structure Mo where
+  c : Ch
   w : Nat
   h : Nat
   ks : Nat
@@ -150,23 +151,27 @@ structure Mo where
 
 def parseMo (line : String) : Option Mo :=
   match splitOn' "|" (words line) with
-  | ["mo", _c, w, h, ks, cy, cx, iters] :: kerW :: planesW =>
-    match ints [w, h, ks, cy, cx, iters], ints kerW, planesW.mapM ints with
-    | some [w, h, ks, cy, cx, iters], some ker, some planes =>
+  | ["mo", c, w, h, ks, cy, cx, iters] :: kerW :: planesW =>
+    match chOfOt c, ints [w, h, ks, cy, cx, iters], ints kerW, planesW.mapM ints with
+    | some c, some [w, h, ks, cy, cx, iters], some ker, some planes =>
       if ker.length ≠ (ks * ks).toNat ∨ w < 1 ∨ h < 1 ∨ ks < 1 ∨ cy < 0 ∨ cx < 0 ∨ cy ≥ ks ∨ cx ≥ ks ∨ iters < 0 then none
-      else some { w := w.toNat, h := h.toNat, ks := ks.toNat, cy := cy.toNat, cx := cx.toNat, iters := iters.toNat, ker := ker, planes := planes }
-    | _, _, _ => none
+      else some { c := c, w := w.toNat, h := h.toNat, ks := ks.toNat, cy := cy.toNat, cx := cx.toNat, iters := iters.toNat, ker := ker, planes := planes }
+    | _, _, _, _ => none
   | _ => none
+
+/-- complement within the channel type: (min + max) − v -/
+def complPlane (c : Ch) (p : List Int) : List Int := p.map fun v => (c.lo + c.hi) - v
 
 def moResults (o : Mo) (p : List Int) : List (List Int) :=
   let opn := opening o.w o.h o.ker o.ks o.cy o.cx p
   let cls := closing o.w o.h o.ker o.ks o.cy o.cx p
   [dilate o.w o.h o.ker o.ks o.cy o.cx o.iters p, erode o.w o.h o.ker o.ks o.cy o.cx o.iters p, opn, cls,
-   opening o.w o.h o.ker o.ks o.cy o.cx opn, closing o.w o.h o.ker o.ks o.cy o.cx cls]
+   opening o.w o.h o.ker o.ks o.cy o.cx opn, closing o.w o.h o.ker o.ks o.cy o.cx cls,
+   dilate o.w o.h o.ker o.ks o.cy o.cx o.iters (complPlane o.c p), erode o.w o.h o.ker o.ks o.cy o.cx o.iters (complPlane o.c p)]
 
 def modelMo (o : Mo) : String :=
-  let perPlane := o.planes.map (moResults o)          -- plane -> 6 results
-  let groups := (List.range 6).map fun (r : Nat) => " / ".intercalate (perPlane.map fun res => showInts (res.getD r []))
+  let perPlane := o.planes.map (moResults o)          -- plane -> 8 results
+  let groups := (List.range 8).map fun (r : Nat) => " / ".intercalate (perPlane.map fun res => showInts (res.getD r []))
   toString o.w ++ " " ++ toString o.h ++ " : " ++ " | ".intercalate groups
 
 def specMorph (o : Mo) (dilation : Bool) (p : List Int) : List Int := morphSpec o.w o.h o.ker o.ks o.cy o.cx dilation p
@@ -179,6 +184,8 @@ def judgeMoPlane (o : Mo) (sym : Bool) (src : List Int) (r : List (List Int)) : 
   let dil := r.getD 0 []; let ero := r.getD 1 []; let opn := r.getD 2 []; let cls := r.getD 3 []
   let opn2 := r.getD 4 []; let cls2 := r.getD 5 []
   if !(leAll ero src && leAll src dil) then some "erode<=src<=dilate"
+  -- duality under complement: a consequence of "max / min over the neighbourhood" for ANY structuring element (C16_morph_duality)
+  else if r.getD 6 [] ≠ complPlane o.c ero ∨ r.getD 7 [] ≠ complPlane o.c dil then some "dilate-erode-dual-under-complement"
   else if !sym then none            -- the property speaks about symmetric structuring elements only
   else if dil ≠ iterate (specMorph o true) o.iters src then some "dilate-is-max-over-neighbourhood"
   else if ero ≠ iterate (specMorph o false) o.iters src then some "erode-is-min-over-neighbourhood"
@@ -192,8 +199,8 @@ def judgeMo (o : Mo) (obs : String) : String :=
   match parseObs obs with
   | none => "fail not-an-image:" ++ obs.take 40
   | some (w, h, groups) =>
-    if w ≠ o.w ∨ h ≠ o.h ∨ groups.length ≠ 6 then "fail shape" else
-    -- groups: 6 results, each "plane / plane / ..."
+    if w ≠ o.w ∨ h ≠ o.h ∨ groups.length ≠ 8 then "fail shape" else
+    -- groups: 8 results, each "plane / plane / ..."
     match groups.mapM (fun g => (splitOn' "/" g).mapM ints) with
     | none => "fail not-a-value"
     | some res =>     -- res[r][plane]
